@@ -236,6 +236,45 @@ func (e *executor) codec(t []string) (string, bool) {
 		err := src.CloneTo(dst)
 		e.afterDecode(atoi(t[2]), hadAttrs, err)
 		return showDecode(dst, err), true
+	case t[0] == "CLONEMUT" && len(t) == 3:
+		src, dst := e.msgs[atoi(t[1])], e.msgs[atoi(t[2])]
+		hadAttrs := len(dst.Attributes) > 0
+		err := src.CloneTo(dst)
+		full := src.Raw[:cap(src.Raw)]
+		for i := range full { // later changes to the source must not reach the clone
+			full[i] ^= 0x5A
+		}
+		e.afterDecode(atoi(t[2]), hadAttrs, err)
+		res := showDecode(dst, err)
+		for i := range full {
+			full[i] ^= 0x5A
+		}
+		return res, true
+	case t[0] == "MARSHAL" && len(t) == 3:
+		m := e.msgs[atoi(t[1])]
+		var b []byte
+		if t[2] == "gob" {
+			b, _ = m.GobEncode()
+		} else {
+			b, _ = m.MarshalBinary()
+		}
+		for i := range m.Raw {
+			m.Raw[i] ^= 0x5A
+		}
+		res := showHex(b)
+		for i := range m.Raw {
+			m.Raw[i] ^= 0x5A
+		}
+		return res, true
+	case t[0] == "WRITETO" && len(t) == 2:
+		var buf bytes.Buffer
+		e.msgs[atoi(t[1])].WriteTo(&buf) //nolint:errcheck
+		return showHex(buf.Bytes()), true
+	case t[0] == "MSGADDTO" && len(t) == 3:
+		if err := e.msgs[atoi(t[1])].AddTo(e.msgs[atoi(t[2])]); err != nil {
+			return "err", true
+		}
+		return e.dumpS(atoi(t[2])), true
 	case t[0] == "ISMSG" && len(t) == 2:
 		return fmt.Sprintf("%v", stun.IsMessage(unhex(t[1]))), true
 	case t[0] == "RESET" && len(t) == 2:
